@@ -9,6 +9,7 @@ RATIONAL_KERNELS = ("uniform", "triangular", "epanechnikov")
 TABLE_KERNELS = ("gaussian", "exponential", "cubic", "spheric")
 OBJ_KERNELS = RATIONAL_KERNELS + TABLE_KERNELS + ("dirac",)
 NAN = float("nan")
+_PRISTINE = None
 
 
 def num(v):
@@ -257,9 +258,14 @@ class P(Prop):
         self.np = np
         self.Track, self.Obs, self.ENU, self.ObsTime, self.Operator, self.K, self.F = Track, Obs, ENUCoords, ObsTime, Operator, K, F
         self.t0 = ObsTime.readUnixTime(0)
-        # the module-level state a call can read, as it is in a fresh process
-        self.pristine_consts = {n: list(getattr(F, n)) for n in FILTER_CONSTS}
-        self.pristine_kattr = {a: getattr(K.Kernel, a) for a in ("_Kernel__filter_boundary", "_Kernel__kernel_function", "_Kernel__support")}
+        # the module-level state a call can read, as it is in a fresh process: taken once per process tree (the engine
+        # calls setup() again in worker processes that have already run cases)
+        global _PRISTINE
+        if _PRISTINE is None:
+            _PRISTINE = ({n: list(getattr(F, n)) for n in FILTER_CONSTS},
+                         {a: getattr(K.Kernel, a) for a in ("_Kernel__filter_boundary", "_Kernel__kernel_function", "_Kernel__support")})
+        self.pristine_consts, self.pristine_kattr = _PRISTINE
+        self.restore_globals()
 
     # ---------------------------------------------------------------- module-level state
     def restore_globals(self):
@@ -925,6 +931,12 @@ class P(Prop):
         return "L:" + tok_list(st["dims"])
 
     def requests(self, case):
+        try:
+            return self._requests(case)
+        finally:
+            self.restore_globals()      # building a kernel object to tabulate its function must not leave anything behind
+
+    def _requests(self, case):
         kind, sc = case["kind"], case["sc"]
         if kind == "sw" or (kind == "badk" and "dims" not in case):
             return ["C15.sw %s %s" % (sc, self.kspec(sc, case["k"]))]
